@@ -1,9 +1,13 @@
 #!/bin/sh
-# developer aid: tools/mutest.sh <patch.diff> <ID>...  -- apply a patch to /repo, run the checks, undo it
+# developer aid: tools/mutest.sh <patch.diff> <ID>...  -- apply a patch to /repo, run the checks, undo it.
+# Evidence files are written by every run; the ones of the unchanged tree are saved and restored here, so that a
+# mutated run never ends up as committed evidence.
 P="$1"; shift
 git -C /repo apply "$P" || { echo "patch does not apply"; exit 3; }
 for id in "$@"; do
+  cp /verif/evidence/$id.json /tmp/mutest.$id.evidence.keep 2>/dev/null
   /verif/bin/check "$id" > /tmp/mutest.$id.out 2>&1; rc=$?
+  cp /tmp/mutest.$id.evidence.keep /verif/evidence/$id.json 2>/dev/null
   echo "== $id exit=$rc"; grep -E "^(VIOLATION|UNDECIDED|FAILED-OBLIGATION|KNOWN-FINDING|property)" /tmp/mutest.$id.out | cut -c1-300
 done
 git -C /repo checkout -- .
